@@ -252,6 +252,14 @@ func (e *Engine) inlinable(fn *ssa.Function, depth int) bool {
 	if _, has := e.cs.Funcs[funcKey(fn)]; has {
 		return false
 	}
+	return e.smallEnough(fn)
+}
+
+// smallEnough: loop-free, no concurrency statements, at most 120 instructions in 24 blocks.
+func (e *Engine) smallEnough(fn *ssa.Function) bool {
+	if fn == nil || len(fn.Blocks) == 0 || fn.Pkg == nil || !strings.HasPrefix(fn.Pkg.Pkg.Path(), modPath) {
+		return false
+	}
 	n := 0
 	fi := e.info(fn)
 	if len(fi.headers) > 0 {
